@@ -36,6 +36,8 @@ type LedgerOpts struct {
 	GenesisRecords bool
 	// OracleStart > 0 starts every token feeder at that block (default: feeders never start in ledger histories)
 	OracleStart uint64
+	// NoDrain: stop right after the last generated step (pending records, holds and queue entries stay in the state)
+	NoDrain bool
 }
 
 func DefaultLedgerOpts() LedgerOpts {
@@ -681,7 +683,7 @@ func (w *World) RunLedger(o LedgerOpts) {
 		}
 	}
 	// drain: run enough blocks for every pending record to mature
-	for i := 0; i < 14 && !w.Dead; i++ {
+	for i := 0; i < 14 && !w.Dead && !o.NoDrain; i++ {
 		w.Advance(61 * time.Second)
 	}
 }
